@@ -19,6 +19,17 @@ NONTRIVIAL = ("a run is non-trivial if the scheduler had at least one decision p
               "or at least one injected fault fired; distinct = distinct (scenario, plan hash, event-log hash)")
 
 PROPS = {
+    "C03": {
+        "rule": "1..4 hostile connections x 1..3 hostile messages each (50 % generated requests with 1..4 mutations, 40 % valid skeletons with hostile "
+                "header/cookie/media-type/number values and hostile chunk framing, 10 % raw garbage) in drawn segmentations beside a well-behaved "
+                "keep-alive client on the same worker(s); AddressSanitizer+UBSan build (annotated containers) and plain build with allocation watch; "
+                + NONTRIVIAL,
+        "probes_expected": ["hostile-input-served", "hostile-input-error-400", "hostile-input-error-413", "hostile-input-error-500", "hostile-input-unanswered"],
+        "assumptions": ["only what a network peer can reach is covered: the request parser inside a running endpoint (and, through C15, the response parser inside a running client); the value parsers are reached through HeadersStep only",
+                        "allocation bound: no single allocation above 4 x maximum request size + 64 KiB while the hostile input is handled (plain build)"],
+        "quick": {"batches": [("c03_hostile", "asan", 1200), ("c03_hostile", "plain", 4000)], "chunk": 100},
+        "thorough": {"batches": [("c03_hostile", "asan", 60000), ("c03_hostile", "plain", 200000), ("c01_l0", "asan", 30000)], "chunk": 500},
+    },
     "C01": {
         "rule": "L0: one generated request or response per run (methods, paths, 0..4 query parameters, registered and unknown headers, cookies, no body / "
                 "Content-Length / chunked bodies whose chunk sizes cross hex-digit boundaries; 35 % with one small mutation) delivered to a fresh parser "
@@ -128,6 +139,8 @@ PROPS = {
 
 SC_NOTE = "sequentially consistent memory; the simulated kernel follows Linux semantics; a clean batch is evidence, not proof"
 MANIFEST_TEXT = {
+    "C03": {"level": "seeded search over hostile byte strings x segmentations delivered through simulated sockets to the real endpoint, with memory-safety and undefined-behaviour detection by the sanitizers inside the simulation, hang detection by a wall-clock watchdog, and an allocation watch",
+            "design_ref": "4.2", "note": "sanitizer coverage is that of AddressSanitizer/UBSan on the paths the inputs reach; " + SC_NOTE},
     "C01": {"level": "every single cut and the byte-by-byte delivery of each generated message enumerated completely, multi-cut segmentations sampled, differential against whole-at-once delivery; confirmed through simulated sockets against the real endpoint",
             "design_ref": "4.1", "note": "differential oracle against the same build (no second opinion about HTTP); the exhaustive sub-space is per generated message, the space of messages is sampled; " + SC_NOTE},
     "C04": {"level": "seeded search over message sequences x segmentations x abandon points, differential between a reused and a fresh parser / connection",
@@ -159,6 +172,5 @@ NOT_APPLICABLE = {
     "C18": "media type round trip: " + PURE,
     "C19": "address/port text forms: " + PURE,
     "C20": "Base64 / Basic credentials: " + PURE,
-    "C03": "check under construction (DESIGN.md section 9); not yet claimed",
     "C15": "check under construction (DESIGN.md section 9); not yet claimed",
 }
